@@ -1,0 +1,28 @@
+//! verif-hooks: lets the /verif harness fire the orphan-expiry timer of one chain service on demand.
+//!
+//! With the feature on, `ChainService::start_process_block` listens on a rendezvous channel (looked
+//! up by the address of the node's `OrphanBlockPool`, which `ChainController` and `OrphanBroker`
+//! share) INSTEAD of the 60 s ticker; the `select!` arm and the code it runs —
+//! `OrphanBroker::clean_expired_orphans` on the chain-service thread — are the unchanged originals.
+use ckb_channel::{Receiver, Sender, bounded};
+use std::collections::HashMap;
+use std::sync::{Mutex, OnceLock};
+
+type Pair = (Sender<()>, Receiver<()>);
+
+static REGISTRY: OnceLock<Mutex<HashMap<usize, Pair>>> = OnceLock::new();
+
+fn pair(key: usize) -> Pair {
+    let mut map = REGISTRY.get_or_init(|| Mutex::new(HashMap::new())).lock().expect("verif_expire registry");
+    map.entry(key).or_insert_with(|| bounded::<()>(0)).clone()
+}
+
+pub(crate) fn receiver(key: usize) -> Receiver<()> {
+    pair(key).1
+}
+
+/// Blocks until the chain-service thread owning the pool `key` has taken the request (it then runs
+/// `clean_expired_orphans` before handling any later request); false after `timeout`.
+pub(crate) fn fire(key: usize, timeout: std::time::Duration) -> bool {
+    pair(key).0.send_timeout((), timeout).is_ok()
+}
